@@ -15,7 +15,7 @@ for id in "$@"; do
     git checkout -q -- . ; cargo test --offline --test seed_demo >/dev/null 2>&1; without=$?
     rm -rf tests
   else
-    sed "s#/tmp/wt2\?/C[0-9]*#$RC#g" $sd/demo.sh > /tmp/rc_demo.sh
+    sed "s#/tmp/wt[0-9]*/C[0-9]*#$RC#g" $sd/demo.sh > /tmp/rc_demo.sh
     bash /tmp/rc_demo.sh >/dev/null 2>&1; with=$?
     git checkout -q -- . ; bash /tmp/rc_demo.sh >/dev/null 2>&1; without=$?
   fi
